@@ -21,13 +21,19 @@ class C03(Check):
             'in one call, append-empty, write-copy under a new name (history continues on the copy), write over an '
             'existing file, append to a file removed behind the object (then re-created by write), re-read normal/raw, '
             'write without filename, append whose write fails with a real EFBIG (RLIMIT_FSIZE)} starting from generated table sets (hostile strings, arrays, enums, zero-row '
-            'tables); every row carries a unique id.  Non-trivial: history with >=1 successful append and >=1 refusal or '
+            'tables); start files as an editor or another tool leaves them (last line - a row, a pair, a definition, a comment - not '
+            'terminated by a line feed, trailing blanks, blank lines, CR LF line ends); rows as record arrays in several memory layouts, as '
+            'np.recarray, with the fields declared in another order than the table columns, as dicts of lists / tuples / column arrays / '
+            'plain Python values with the keys in any order, pairs before or after the tables in the dict; '
+            'every row carries a unique id.  Non-trivial: history with >=1 successful append and >=1 refusal or '
             're-read; distinct by hash of start state + operation list.')
     ASSUMPTIONS = ['appended pair keys are not table names or "symbols" (documented skip); timestamps in the "# Appended by" '
                    'comment are never compared (parsed content and byte prefixes only)',
                    'the audit hook sees every open() made through the io layer (builtin open / io.open)']
     REQUIRED_COUNTERS = ('append_write_failures', 'unsized_char_histories', 'appends_ok', 'refusals_write_over', 'refusals_append_missing', 'append_empty', 'write_copy',
-                         'rereads_raw', 'prefix_checks', 'audit_open_events', 'lowercase_key_appends', 'array_form_appends', 'append_zero_rows', 'refusals_write_over_empty_file', 'append_encode_failures')
+                         'rereads_raw', 'prefix_checks', 'audit_open_events', 'lowercase_key_appends', 'array_form_appends', 'append_zero_rows', 'refusals_write_over_empty_file', 'append_encode_failures',
+                         'appends_to_unterminated_file', 'appends_to_unterminated_row', 'appends_to_unterminated_pair', 'appends_to_crlf_file',
+                         'permuted_field_appends', 'recarray_appends', 'permuted_key_appends', 'python_value_appends')
 
     def setup(self):
         import pydl.pydlutils.yanny as Y
@@ -46,7 +52,8 @@ class C03(Check):
 
     def budget(self, tier):
         k = 1 if tier == 'quick' else 80
-        return {'histories': 500 * k, 'raw_histories': 150 * k, 'zero_row_start': 100 * k, 'unsized_char_start': 200 * k}
+        return {'histories': 500 * k, 'raw_histories': 150 * k, 'zero_row_start': 100 * k, 'unsized_char_start': 200 * k,
+                'open_ended_start': 250 * k}
 
     # ------------------------------------------------------------------ gen
     def gen(self, cls, rng, i):
@@ -178,8 +185,30 @@ class C03(Check):
                 ops.append(d)
             else:
                 ops.append({'op': op})
-        return {'kind': cls, 'start': {'tables': tables, 'enums': enums, 'hdr': hdr},
-                'start_raw': cls == 'raw_histories', 'ops': ops}
+        # ---- drawn after everything else (the streams of the older classes stay what they were) -------------------------------
+        # how the caller hands the rows over: rows are addressed by column name, so neither the order of the fields of a record
+        # array nor the order of the keys of a dict of columns means anything
+        for o in ops:
+            for tt in o.get('tables', []):
+                if o['form'] == 'array':
+                    tt['layout'] = rng.choice(['packed', 'view_permuted', 'aligned', 'recarray', 'fields_permuted', 'fields_permuted',
+                                               'fields_permuted_recarray', 'fields_permuted_aligned'])
+                else:
+                    tt['layout'] = rng.choice(['lists', 'lists', 'keys_permuted', 'keys_permuted_python', 'python_lists',
+                                               'column_arrays', 'tuples'])
+                tt['perm_seed'] = rng.randrange(1 << 30)
+            if 'tables' in o and 'pairs' in o:
+                o['pairs_first'] = rng.random() < 0.5
+        # how the start file ends: files come from editors and other tools, not only from this package
+        ending = 'lf'
+        if rng.random() < (0.7 if cls == 'open_ended_start' else 0.25):
+            ending = rng.choice(['no_lf', 'no_lf', 'no_lf', 'pair_no_lf', 'pair_no_lf', 'comment_no_lf', 'blanks_no_lf', 'glued_comment_no_lf',
+                                 'blank_lines', 'crlf', 'crlf_no_final'])
+        end_pair = ['zz_end', rng.choice(['nobody', '12', '-3.5', 'two words', 'x;y', 'plate-3615'])]
+        start = {'tables': tables, 'enums': enums, 'hdr': hdr, 'ending': ending}
+        if ending == 'pair_no_lf':
+            start['end_pair'] = end_pair
+        return {'kind': cls, 'start': start, 'start_raw': cls == 'raw_histories', 'ops': ops}
 
     @staticmethod
     def _pair(rng, n, names=()):
@@ -292,6 +321,15 @@ class C03(Check):
                 out[f] = fh.read()
         return out
 
+    @staticmethod
+    def _permuted(names, seed):
+        import random
+        perm = list(names)
+        random.Random(seed).shuffle(perm)
+        if perm == list(names) and len(perm) > 1:
+            perm = perm[1:] + perm[:1]
+        return perm
+
     def _append_arg(self, model, op):
         dd = {}
         for tt in op.get('tables', []):
@@ -302,14 +340,81 @@ class C03(Check):
                     for c in t['cols']]
             tmp = {'cols': cols, 'rows': tt['rows']}
             arr = M.build_array(tmp)
+            names = [c['name'] for c in t['cols']]
+            layout = tt.get('layout')
             if op['form'] == 'array':
-                # the record array in one of three memory layouts (same field order and values)
-                dd[key] = M.relayout_fields(arr, ['packed', 'view_permuted', 'aligned'][(len(tt['rows']) + tt['ti']) % 3], seed=tt['ti'])
+                if layout is None:
+                    # (cases stored before round 10) the record array in one of three memory layouts (same field order and values)
+                    layout = ['packed', 'view_permuted', 'aligned'][(len(tt['rows']) + tt['ti']) % 3]
+                if layout.startswith('fields_permuted'):
+                    # the same fields under the same names, declared in another order (the result of a join or of a query with
+                    # its own column order); values bit for bit those of arr
+                    perm = self._permuted(names, tt.get('perm_seed', 0))
+                    b = np.zeros(arr.shape, dtype=np.dtype([(n, arr.dtype[n]) for n in perm], align=layout.endswith('aligned')))
+                    for n in names:
+                        b[n] = arr[n]
+                    arr = b
+                elif layout in ('view_permuted', 'aligned'):
+                    arr = M.relayout_fields(arr, layout, seed=tt['ti'])
+                if layout.endswith('recarray'):
+                    arr = arr.view(np.recarray)
+                dd[key] = arr
             else:
-                dd[key] = {c['name']: [arr[c['name']][k] for k in range(len(arr))] for c in t['cols']}
-        for k, v, vt in op.get('pairs', []):
-            dd[k] = v
+                layout = layout or 'lists'
+
+                def python_values(c):
+                    # plain Python values where they say the same as the numpy scalar: int, double, str (a float32 stays a numpy
+                    # scalar: its Python float prints with the digits of a double)
+                    v = arr[c['name']].tolist()
+                    if c['kind'] in ('S', 'enum'):
+                        v = [[x.decode('ascii') for x in r] if c['alen'] else r.decode('ascii') for r in v]
+                    elif c['kind'] == 'f4':
+                        v = [arr[c['name']][k] for k in range(len(arr))]
+                    return v
+                if layout.endswith('python') or layout == 'python_lists':
+                    colsd = {c['name']: python_values(c) for c in t['cols']}
+                elif layout == 'column_arrays':
+                    colsd = {c['name']: arr[c['name']] for c in t['cols']}
+                elif layout == 'tuples':
+                    colsd = {c['name']: tuple(arr[c['name']][k] for k in range(len(arr))) for c in t['cols']}
+                else:
+                    colsd = {c['name']: [arr[c['name']][k] for k in range(len(arr))] for c in t['cols']}
+                if layout.startswith('keys_permuted'):
+                    colsd = {n: colsd[n] for n in self._permuted(names, tt.get('perm_seed', 0))}
+                dd[key] = colsd
+        pairs = {k: v for k, v, vt in op.get('pairs', [])}
+        if op.get('pairs_first'):
+            # (a repeated key inside one call keeps its first position and its last value, as in the model)
+            dd = dict(list(pairs.items()) + list(dd.items()))
+        else:
+            dd.update(pairs)
         return dd
+
+    @staticmethod
+    def _apply_ending(data, start):
+        """the bytes of the start file as another tool would have left them; returns (bytes, pairs added at the end)"""
+        e = start.get('ending', 'lf')
+        body = data.rstrip(b'\n')
+        if e == 'lf':
+            return data, []
+        if e == 'no_lf':
+            return body, []
+        if e == 'pair_no_lf':
+            k, v = start['end_pair']
+            return body + b'\n' + ('%s %s' % (k, v)).encode('ascii'), [(k, v)]
+        if e == 'comment_no_lf':
+            return body + b'\n# end of file', []
+        if e == 'blanks_no_lf':
+            return body + b' \t ', []
+        if e == 'glued_comment_no_lf':
+            return body + b'#checked', []
+        if e == 'blank_lines':
+            return body + b'\n\n   \n\n', []
+        if e == 'crlf':
+            return data.replace(b'\n', b'\r\n'), []
+        if e == 'crlf_no_final':
+            return body.replace(b'\n', b'\r\n'), []
+        raise ValueError(e)
 
     # ------------------------------------------------------------------ run
     def run(self, case, out):
@@ -343,6 +448,16 @@ class C03(Check):
             y = Y.write_ndarray_to_yanny(fn, arrays, structnames=[t['name'] for t in model['tables']],
                                          enums=M.writer_enums(start), hdr=hdr)
         raw = False
+        ending = start.get('ending', 'lf')
+        if ending != 'lf':
+            with open(fn, 'rb') as f:
+                data = f.read()
+            data, more = self._apply_ending(data, start)
+            with open(fn, 'wb') as f:
+                f.write(data)
+            for k, v in more:
+                model['pairs'][k] = v
+            y = Y.yanny(fn)
         if case['start_raw']:
             y = Y.yanny(fn, raw=True)
             raw = True
@@ -429,6 +544,22 @@ class C03(Check):
                     model['tables'][tt['ti']]['rows'] += tt['rows']
                     out.count('lowercase_key_appends', tt['key'] == 'lower')
                 out.count('array_form_appends', op.get('form') == 'array')
+                lays = [tt.get('layout') or '' for tt in op.get('tables', [])]
+                out.count('permuted_field_appends', sum(x.startswith('fields_permuted') for x in lays))
+                out.count('recarray_appends', sum(x.endswith('recarray') for x in lays))
+                out.count('permuted_key_appends', sum(x.startswith('keys_permuted') for x in lays))
+                out.count('python_value_appends', sum(x.endswith('python') or x == 'python_lists' for x in lays))
+                old = before[os.path.basename(bound)]
+                if not old.endswith(b'\n'):
+                    # the '# Appended by' comment lands on the last line of the file: that line must still say what it said
+                    out.count('appends_to_unterminated_file')
+                    last = old.rsplit(b'\n', 1)[-1].strip()
+                    first = last.split(None, 1)[0].upper().decode('ascii', 'replace') if last else ''
+                    is_row = first in [t['name'].upper() for t in model['tables']]
+                    out.count('appends_to_unterminated_row', is_row and b'#' not in last)
+                    out.count('appends_to_unterminated_pair', bool(last) and not is_row and not last.startswith(b'#')
+                              and not last.startswith(b'}') and b'#' not in last)
+                out.count('appends_to_crlf_file', b'\r\n' in old)
                 for k, v, vt in op.get('pairs', []):
                     model['pairs'][k] = str(v)
                 b = os.path.basename(bound)
